@@ -6,6 +6,7 @@ use h2::verif_hooks::hpack as hk;
 
 pub struct Pure {
     dec: hk::Dec,
+    enc: hk::Enc,
     // what the real decoder did on the current header block (answers `spec_dec_block`)
     blk_fields: Vec<(Vec<u8>, Vec<u8>)>,
     blk_err: Option<String>,
@@ -14,7 +15,7 @@ pub struct Pure {
 
 impl Pure {
     pub fn new() -> Pure {
-        Pure { dec: hk::Dec::new(4096), blk_fields: vec![], blk_err: None, blk_last: None }
+        Pure { dec: hk::Dec::new(4096), enc: hk::Enc::new(4096, 0), blk_fields: vec![], blk_err: None, blk_last: None }
     }
 
     pub fn handle(&mut self, ws: &[&str]) -> Option<String> {
@@ -80,6 +81,33 @@ impl Pure {
                 self.blk_fields.extend(fields.iter().cloned());
                 self.blk_last = Some(r.clone());
                 Some(format!("res={} tail={} size={} max={} n={} fields={}", r, tail, size, max, n, fs))
+            }
+            ["enc_new", n, cap] => {
+                self.enc = hk::Enc::new(n.parse().ok()?, cap.parse().ok()?);
+                Some("ok".into())
+            }
+            ["enc_max", n] => {
+                self.enc.update_max_size(n.parse().ok()?);
+                Some("ok".into())
+            }
+            ["enc_block", f] => {
+                let mut fields = vec![];
+                if *f != "-" {
+                    for w in f.split(',') {
+                        let p: Vec<&str> = w.split(':').collect();
+                        if p.len() != 3 {
+                            return None;
+                        }
+                        fields.push((unhex(p[0])?, unhex(p[1])?, p[2].contains('s'), p[2].contains('n')));
+                    }
+                }
+                Some(match self.enc.encode(&fields) {
+                    Ok(bytes) => {
+                        let (ents, size, max) = self.enc.table();
+                        format!("{} size={} max={} n={}", hex(&bytes), size, max, ents.len())
+                    }
+                    Err(e) => format!("err {}", e),
+                })
             }
             ["spec_huff_dec", h] => Some(match hk::huffman_decode(&unhex(h)?) {
                 Ok(v) => format!("ok {}", hex(&v)),
